@@ -306,6 +306,31 @@ Fixpoint WF (c : cst) : Prop :=
   | CArray _ | CRow _ | CEmpty => False
   end.
 
+(* [WF] extended by array constants {a,b;c,d}: one or more rows separated by
+   ";", each one or more constants separated by "," (numbers, texts, logicals,
+   errors: single operand tokens; a signed number is two tokens and is not
+   covered).  An array constant is an operand (level 9) anywhere in a tree. *)
+Definition const_item (c : cst) : Prop :=
+  match c with CAtom k _ => k <> KEmpty | _ => False end.
+Definition const_row (c : cst) : Prop :=
+  match c with CRow items => items <> [] /\ Forall const_item items | _ => False end.
+Fixpoint WFA (c : cst) : Prop :=
+  match c with
+  | CAtom k _ => k <> KEmpty
+  | CParen c => WFA c
+  | CNeg c => WFA c /\ 7 <= top c
+  | CPct c => WFA c /\ 6 <= top c
+  | CBin o l r => WFA l /\ WFA r /\ bprec o <= top l /\ bprec o < top r
+  | CCall n args =>
+      (fix wfl (l : list cst) : Prop :=
+         match l with
+         | [] => True
+         | a :: l' => (if is_empty a then True else WFA a) /\ wfl l'
+         end) args /\ args <> [CEmpty]
+  | CArray rows => rows <> [] /\ Forall const_row rows
+  | CRow _ | CEmpty => False
+  end.
+
 (* ------------------------------------------------- renderings for the harness *)
 Definition rpn_text (r : rpn) : list Z * Z :=
   match r with
